@@ -801,7 +801,7 @@ const SECTION_NAMES: [&str; 24] = [
 pub fn seed_sections(ch: &mut Choices, big_out: &mut bool, addr_out: &mut u8) -> Map {
     let mut map: Map = match ch.below(4) {
         0 => {
-            let d = crate::fullasm::gen_fdwarf(ch, &crate::fullasm::GenOpts { max_units: 3, max_dies: 10, lines: true, bad_refs: 0 });
+            let d = crate::fullasm::gen_fdwarf(ch, &crate::fullasm::GenOpts { max_units: 3, max_dies: 10, lines: true, bad_refs: 0, split: false });
             *big_out = d.big;
             *addr_out = d.units[0].address_size;
             crate::fullasm::assemble(&d).sections
